@@ -33,6 +33,7 @@ type pullEvent struct {
 type gate struct {
 	site     string // the hook site that is gated
 	schedule []int  // preferred leg (named in order of first service) for the i-th served pull
+	freshSel int    // which of the parked, not yet served goroutines becomes the next new leg (rotation)
 
 	mu      sync.Mutex
 	parked  map[int64]chan struct{}
@@ -115,8 +116,8 @@ func parseBusy(b []byte, self int64) (busy, total int) {
 	return
 }
 
-func newGate(site string, schedule []int) *gate {
-	return &gate{site: site, schedule: schedule, parked: map[int64]chan struct{}{}, names: map[int64]int{},
+func newGate(site string, schedule []int, freshSel int) *gate {
+	return &gate{site: site, schedule: schedule, freshSel: freshSel, parked: map[int64]chan struct{}{}, names: map[int64]int{},
 		stop: make(chan struct{}), done: make(chan struct{})}
 }
 
@@ -231,8 +232,11 @@ func (g *gate) control() {
 			}
 		}
 		if pick == next {
-			g.names[fresh[0]] = next
-			byName[next] = fresh[0]
+			// the legs are interchangeable copies, but which scatter path (= which parent
+			// of the fan-in) gets which object decides e.g. the merge heap's layout
+			f := fresh[(g.freshSel+next)%len(fresh)]
+			g.names[f] = next
+			byName[next] = f
 		}
 		id := byName[pick]
 		ch := g.parked[id]
